@@ -1,8 +1,8 @@
 #!/bin/bash
-# Rebase a stored patch (written against the tree before /repo commit a2d4235) onto the current /repo HEAD.
-# usage: rebase_patch.sh <patch.diff>   -> rewrites the file in place when the rebase is conflict-free
+# Rebase a stored patch (written against /repo commit <base>, default a2d4235) onto the current /repo HEAD.
+# usage: rebase_patch.sh <patch.diff> [base]   -> rewrites the file in place when the rebase is conflict-free
 set -e
-P=$(readlink -f "$1"); BASE=6e50dd7
+P=$(readlink -f "$1"); BASE=${2:-a2d4235}
 T=$(mktemp -d /tmp/rebase_XXXX)
 git -C /repo worktree add -q --detach $T $BASE
 cd $T
